@@ -258,7 +258,7 @@ func (c *Ctx) runNativeChunked(run *NativeRunner, cases []ReplayCase) ([]ReplayO
 
 func (c *Ctx) addViolation(jr *JobResult, v *symx.Violation, o *ReplayOutcome) {
 	j := jr.Job
-	f := &Finding{Property: c.Prop, Label: j.Label, Entry: j.Entry, Args: j.Args, PkgPath: j.PkgPath, Kind: v.Kind,
+	f := &Finding{Property: c.Prop, Tier: c.Tier, Seed: c.Seed, Label: j.Label, Entry: j.Entry, Args: j.Args, PkgPath: j.PkgPath, Kind: v.Kind,
 		AssertID: v.ID, Msg: v.Msg, Vars: v.Model, Strs: v.Strs, Meta: j.Meta, Native: o, Obs: v.Obs}
 	if o != nil {
 		switch v.Kind {
